@@ -38,12 +38,27 @@ def gen_one(rng, i, tier):
     if rng.random() < 0.35 and pos and neg:
         pos, neg = gen.tiefree(rng, len(pos), len(neg), stream == "exact")
         tiefree = True
+    a_, b_ = rng.choice([0.5, 2.0, 4.0, 2.0 ** -13, 2.0 ** 10]), rng.choice([0.0, 1.0, -0.75, 3.5])
+    fmax = False
+    if rng.random() < 0.04 and pos and neg:
+        # scores of both signs next to the float maximum: the DIFFERENCE of two neighbouring scores is not representable
+        # (the convex combination la*s_l + (1-la)*s_r is), same-sign sums stay finite; a power-of-two contraction is exact
+        fmax, tiefree = True, True
+        n_ = len(pos) + len(neg)
+        vals = [-0.9e308, 0.9e308] + [rng.choice([-1.0, 1.0]) * rng.uniform(0.1e308, 0.85e308) for _ in range(n_)]
+        vals = vals[:max(2, n_)]
+        rng.shuffle(vals)
+        k_ = max(1, min(len(vals) - 1, len(pos)))
+        pos, neg = vals[:k_], vals[k_:]
+        a_, b_ = rng.choice([0.5, 0.25]), 0.0
     ep, en = gen.easy_counts(rng, stream, len(pos), len(neg))
     sc, ec = rng.choice(gen.CFGS)
     ts = gen.thresholds(rng, pos, neg, k=6)
     rs = sorted(set([rng.random() for _ in range(3)] + [rng.choice([0.0, 1.0, 0.5, 0.25])]))
     return {"stream": stream, "pos": pos, "neg": neg, "ep": ep, "en": en, "sc": sc, "ec": ec, "ts": ts,
-            "rs": rs, "a": rng.choice([0.5, 2.0, 4.0, 2.0 ** -13, 2.0 ** 10]), "b": rng.choice([0.0, 1.0, -0.75, 3.5]),
+            "rs": rs, "a": a_, "b": b_, "fmax": fmax,
+            # the classes held in arrays of different precision (model output float32, reference data float64)
+            "mixdt": rng.choice([None, None, None, "f4f8", "f8f4"]),
             "tiefree": tiefree, "G": rng.choice([1, 2, 3]), "gsalt": rng.randint(0, 10**6),
             "tam": _gen_tam(rng, pos, neg)}
 
@@ -107,6 +122,27 @@ def build(inp) -> Case:
                 pre.append(Issue("PROPFAIL", "swap-rates", f"{x} of original != {y} of swap(): {u_.tolist()} vs {v_.tolist()}", f"swap/{x}"))
     if sw.swap() != s:
         pre.append(Issue("PROPFAIL", "swap-involution", "swap().swap() differs from the original", "swap/involution"))
+    if inp.get("mixdt") and pos and neg and not inp.get("fmax"):
+        # one class float32, the other float64 (each float32 value is a float64 value, so the object holds well-defined
+        # scores); thresholds equal to float64 scores that are not float32 numbers must be compared at full precision by
+        # the object AND by its swap
+        dp, dn = (np.float32, np.float64) if inp["mixdt"] == "f4f8" else (np.float64, np.float32)
+        pa_, na_ = np.array(pos, dtype=dp), np.array(neg, dtype=dn)
+        mp_, mn_ = [float(x) for x in pa_], [float(x) for x in na_]
+        sm = Scores(pa_, na_, nb_easy_pos=ep, nb_easy_neg=en, score_class=sc, equal_class=ec)
+        smw = sm.swap()
+        mts = ts + [float(x) for x in (mn_ if dp == np.float32 else mp_)][:6]
+        cm0, cm1 = _cells(sm, mts), _cells(smw, mts)
+        lines.append(cmline(mp_, mn_, ep, en, sc, ec, mts, cm0))
+        lines.append(cmline(mn_, mp_, en, ep, flip[sc], flip[ec], mts, cm1))
+        lines.append(line("rel", kind="swap", a=il(cm0), b=il(cm1)))
+        marr = np.array(mts, dtype=float)
+        for m1, m2 in (("fpr", "fnr"), ("tpr", "tnr"), ("topr", "tonr")):
+            for x, y in ((m1, m2), (m2, m1)):
+                u_, v_ = np.asarray(getattr(sm, x)(marr)), np.asarray(getattr(smw, y)(marr))
+                if not np.array_equal(u_, v_, equal_nan=True):
+                    pre.append(Issue("PROPFAIL", "swap-rates", f"classes of mixed precision ({inp['mixdt']}): {x} of original != {y} of swap() "
+                                     f"at thresholds {mts}: {u_.tolist()} vs {v_.tolist()}", f"swap/{x}/mixed-precision"))
     # ---- negation
     npos, nneg = [-x for x in pos], [-x for x in neg]
     sn = Scores(npos, nneg, nb_easy_pos=ep, nb_easy_neg=en, score_class=flip[sc], equal_class=ec)
@@ -130,7 +166,7 @@ def build(inp) -> Case:
     scale = max([1.0] + [abs(x) for x in pos + neg])
     # integer-dtype objects and the lower/higher methods under an affine map (a, b integers so that
     # the image is integer-valued as well): every method's threshold must be mapped by t -> a*t+b
-    if all(x == round(x) for x in pos + neg) and pos and neg:
+    if all(x == round(x) for x in pos + neg) and pos and neg and not inp.get("fmax"):
         ai, bi = int(max(1, round(a))) * 2, int(round(b)) + 1
         si = Scores(np.array(pos, dtype=int), np.array(neg, dtype=int), nb_easy_pos=ep, nb_easy_neg=en,
                     score_class=sc, equal_class=ec)
@@ -212,7 +248,8 @@ def build(inp) -> Case:
                 elif len(q_[1]) != len(img) or not np.allclose(np.sort(q_[1]), img, rtol=1e-9, atol=1e-9 * scale * max(a, 1.0)):
                     pre.append(Issue("PROPFAIL", "negate-threshold" if nm_ == "negated" else "affine-threshold",
                                      f"threshold_at_metric({target}, {mname}, points={pts}): original {q0[1].tolist()[:6]}, {nm_} object "
-                                     f"{q_[1].tolist()[:6]}, expected {img.tolist()[:6]}", f"tam/{mname}/{'negate' if nm_ == 'negated' else 'affine'}"))
+                                     f"{q_[1].tolist()[:6]}, expected {img.tolist()[:6]}", f"tam/{mname}/{'negate' if nm_ == 'negated' else 'affine'}" + (
+                                         "/range-overflow" if isinstance(pts, int) and not np.isfinite(allsc[-1] - allsc[0]) else "")))
         elif q0[0] == "ok":
             tam_skipped = 1
     if pos and neg:
@@ -303,10 +340,14 @@ def build(inp) -> Case:
                 kind = "swap" if "kind=swap" in ln else "same"
                 for k, bit in enumerate(common.plist(o["spec.rel"])):
                     if bit != "1":
-                        iss.append(Issue("PROPFAIL", "relation-" + kind, f"threshold index {k} ({ts[k]}): {ln[:300]}", f"rel/{kind}"))
+                        iss.append(Issue("PROPFAIL", "relation-" + kind, f"threshold index {k} ({ts[k] if k < len(ts) else 'extra'}): {ln[:300]}", f"rel/{kind}"))
                         break
         return iss
 
+    if inp.get("fmax"):
+        tags.append("scores-near-float-max")
+    if inp.get("mixdt"):
+        tags.append("mixed-precision:" + inp["mixdt"])
     if inp.get("tam"):
         tags.append("threshold_at_metric:" + ("none" if inp["tam"]["points"] is None else
                                               "int" if isinstance(inp["tam"]["points"], int) else "array"))
